@@ -199,6 +199,13 @@ def coverage_loops(idx, A):
         if head.meta.get("comp"):
             continue
         it = head.meta["iter"]
+        if isinstance(it, ast.Name):
+            # `leaves = [c for c in table if ...]` first, then `for c in leaves:`
+            d0 = K.single_defs(fi).get(it.id)
+            if isinstance(d0, (ast.ListComp, ast.GeneratorExp)) or (d0 is not None and _table_iter(d0, sn, attr)):
+                it = d0
+            elif isinstance(d0, ast.Call) and isinstance(d0.func, ast.Name) and d0.func.id in ("list", "tuple") and len(d0.args) == 1:
+                it = d0.args[0]
         tgt = head.meta["target"]
         mode = _table_iter(it, sn, attr)
         filt = None
@@ -401,6 +408,24 @@ def list_clean_total(idx, fi):
     rets = [n for n in own_nodes(fi.node) if isinstance(n, ast.Return)]
     if not rets:
         return False, "ListParameter.clean never returns a value", fi.node.lineno
+    # the raw list belongs to the caller (the argument of the command, shared by every program built from it):
+    # storing cleaned values back into it replaces reference names by this program's Command objects
+    rebound = False
+    for st in fi.node.body:
+        if isinstance(st, ast.Assign) and any(isinstance(t, ast.Name) and t.id == raw for t in st.targets):
+            rebound = True
+        if rebound:
+            break
+        for n in ast.walk(st):
+            hit = None
+            if isinstance(n, (ast.Assign, ast.AugAssign)):
+                for t in (n.targets if isinstance(n, ast.Assign) else [n.target]):
+                    if isinstance(t, ast.Subscript) and isinstance(t.value, ast.Name) and t.value.id == raw:
+                        hit = K.src(t)
+            if isinstance(n, ast.Call) and isinstance(n.func, ast.Attribute) and isinstance(n.func.value, ast.Name) and n.func.value.id == raw and n.func.attr in ("append", "extend", "insert", "pop", "remove", "clear", "sort", "reverse", "__setitem__"):
+                hit = K.src(n.func)
+            if hit:
+                return False, "cleaned values are written into the raw argument list itself (`%s`): the caller's list of reference names now holds this program's Command objects, so a second program built from the same arguments is fed the first program's commands" % hit, n.lineno
     verdict = True
     why = []
     line = rets[0].lineno
